@@ -56,6 +56,9 @@ def run(chk):
     for pi, (box, vel) in enumerate(BOXVEL):
         base = sc.raw_halo_columns(uids)
         ov = {}
+        # 64-bit ids as CompaSO writes them: far beyond 2**53, so a pass through floating point is visible
+        ov['id'] = ((1 << 60) + 12345 + 3 * np.arange(len(uids), dtype=np.uint64)).astype(np.uint64)
+        base['id'] = ov['id']
         raw = np.array([r[0] for r in rows], dtype=np.float64) / RD
         i16 = np.array([r[1] for r in rows], dtype=np.int16)
         ref = np.array([r[2] for r in rows], dtype=np.float64) / RD
